@@ -161,12 +161,12 @@ Theorem C16_model_satisfies_spec_partial :
   forall text refs rs, header_valid text refs ->
     Forall (fun r => rec_valid 16384 r /\ 0 <= b_ref r < len refs) rs ->
     exists b, read_file (encode_file text refs rs) = Some (map fst refs, encode_header text refs, b)
-      /\ all2 (rec_matches refs) rs (decode_buf current (map fst refs) b) = true
-      /\ all2 (iv_matches refs) rs (intervals_buf current (map fst refs) b) = true
+      /\ all2 (rec_matches refs) rs (decode_buf pinned (map fst refs) b) = true
+      /\ all2 (iv_matches refs) rs (intervals_buf pinned (map fst refs) b) = true
       /\ (forall k, 0 < k -> Forall (fun r => len (encode_rec r) <= k) rs ->
             exists bs, read_chunks k (encode_recs rs) = Some bs
               /\ Forall (fun c => bf_starts c <> []) bs
-              /\ all2 (rec_matches refs) rs (flat_map (decode_buf current (map fst refs)) bs) = true
+              /\ all2 (rec_matches refs) rs (flat_map (decode_buf pinned (map fst refs)) bs) = true
               /\ encode_header text refs ++ concat (map bf_data bs) = encode_file text refs rs)
       /\ write_whole (encode_header text refs) b = encode_file text refs rs
       /\ (forall idx, Forall (fun i => 0 <= i < len rs) idx ->
